@@ -98,8 +98,18 @@ def build(api, recs, delimiter, rng, how=None):
             c = api.Converter.from_prefix_map({r.prefix: r.uri_prefix for r in order}, delimiter=delimiter)
         for r in rng.sample(order, k=len(order)):
             if r.psyn or r.usyn:
-                if rng.random() < 0.5:
+                style = rng.random()
+                if style < 0.35:
                     c.add_prefix(r.prefix, r.uri_prefix, list(r.psyn), list(r.usyn), merge=True)
+                elif style < 0.7:
+                    # the merged-in records have their own canonical values: a synonym as prefix, a URI synonym as URI prefix
+                    ps, us = list(r.psyn), list(r.usyn)
+                    while ps and us:
+                        c.add_record(api.Record(prefix=ps.pop(), uri_prefix=us.pop(), prefix_synonyms=[r.prefix]), merge=True)
+                    for x in ps:
+                        c.add_record(api.Record(prefix=x, uri_prefix=r.uri_prefix), merge=True)
+                    for x in us:
+                        c.add_record(api.Record(prefix=r.prefix, uri_prefix=x), merge=True)
                 else:
                     for x in r.psyn:
                         c.add_record(api.Record(prefix=x, uri_prefix=r.uri_prefix), merge=True)
